@@ -73,7 +73,7 @@ StimsFor(role) ==
 
 ExistingCases == UNION {
    {[role |-> ro, status |-> s, var |-> v, stim |-> st, types |-> ty, kind |-> "existing"] :
-       s \in Statuses, v \in (IF Family = "c04" THEN {"zero","prog","mixed"} ELSE {"zero","prog","rp","ip"}), st \in StimsFor(ro),
+       s \in Statuses, v \in (IF Family = "c04" THEN {"zero","prog","mixed"} ELSE IF Family = "all" THEN {"zero","prog","rp","ip","both"} ELSE {"zero","prog","rp","ip"}), st \in StimsFor(ro),
        ty \in IF Family = "c04" THEN {<<"vt">>, << >>, <<"vt","vtB">>} ELSE {<<"vt">>}}
    : ro \in (IF Family = "c04" THEN Roles \cap {"respPush","respPull"} ELSE Roles)}
 ValidExisting(c) == /\ (c.types # <<"vt">> => c.stim.val \in ValFew)
